@@ -11,6 +11,7 @@ import (
 	"runtime"
 	"runtime/debug"
 	"sort"
+	"strconv"
 	"sync"
 	"sync/atomic"
 	"time"
@@ -93,6 +94,9 @@ func NewCtx(id, tier string, seed int64, budget time.Duration) *Ctx {
 		ID: id, Tier: tier, Seed: seed, Start: time.Now(), Workers: runtime.NumCPU(),
 		counters: map[string]*int64{}, viol: map[string]*Violation{}, samples: map[string][]any{},
 		notes: map[string]any{},
+	}
+	if w, err := strconv.Atoi(os.Getenv("VERIF_WORKERS")); err == nil && w >= 1 {
+		c.Workers = w // the supervisor's second, sequential pass (see cmd/vc: flaky-only runs)
 	}
 	c.Deadline = c.Start.Add(budget)
 	for i := range c.distinct {
